@@ -4616,6 +4616,12 @@ class ParseCtx:
                     raise NotImplementedError(attr)
             return OutputStorage(OutputStorageType.INT, name, default_value=default_value, **kwargs)
         elif type_obj.data == "enum_type":
+            # the constants are emitted in capitals: two that differ only in case would collide in the header
+            seen_constants = set()
+            for x in type_obj.children:
+                if x.value.upper() in seen_constants:
+                    raise DuplicateDefinitionError("enumeration constant", x, x.value.upper())
+                seen_constants.add(x.value.upper())
             return OutputStorage(OutputStorageType.ENUM, name, default_value=default_value, enum_values=list(x.value for
                 x in type_obj.children))
         elif type_obj.data in ("str_type", "unterm_str_type"):
@@ -5565,7 +5571,7 @@ class CodegenCtx:
         
         with result as contents:
             for val in out_decl.enum_values:
-                contents.add(f"{self.program_name.upper()}_{out_decl.name.upper()}_{val},")
+                contents.add(f"{self.program_name.upper()}_{out_decl.name.upper()}_{val.upper()},")
 
         result.add("};")
         result.add(f"typedef enum {self.program_name}_out_{out_decl.name} {self.program_name}_out_{out_decl.name}_t;")
